@@ -1221,6 +1221,7 @@ class Hist:
         self.nround = self.nq = 0
         self.flts = self.cflts = self.targets = None
         self.touched = set()        # objects the steps since the last round were about (always asked in that round)
+        self.max_sources = 6 if quick else None
         self.req = {}               # association id -> namespace it was created in
         self.mof_seen, self.mof_stale = set(), set()     # classes the MOF compiler has looked at / that changed since
         self.step('qualifier declarations in root/a (mof)', self.conn.compile_mof_string, QUAL_MOF, namespace='root/a')
@@ -1506,14 +1507,14 @@ class Hist:
         out.sort(key=lambda s: (s[0], s[1]))       # same id in one namespace, then in the other
         missing = ('root/a', 'N_Base', 'missing')
         out.append(('missing', 'root/a', 'missing root/a:N_Base.Id=missing', self.npath(missing), nodekey(missing)))
-        if self.quick:      # what the last steps were about, then a seeded sample of the rest
+        if self.max_sources:    # what the last steps were about, then a seeded sample of the rest
             nodes = [s for s in out if s[0][0] != '~']
             recs = [s for s in out if s[0][0] == '~']
             hot = [s for s in nodes if s[4] in self.touched]
             hot = self.rnd.sample(hot, min(4, len(hot)))
             cold = [s for s in nodes if s not in hot]
-            out = sorted(hot + self.rnd.sample(cold, min(6 - len(hot), len(cold))), key=lambda s: (s[0], s[1])) + \
-                self.rnd.sample(recs, min(1, len(recs)))
+            out = sorted(hot + self.rnd.sample(cold, min(self.max_sources - len(hot), len(cold))),
+                         key=lambda s: (s[0], s[1])) + self.rnd.sample(recs, min(self.max_sources // 4, len(recs)))
         self.touched.clear()
         return [s[1:] for s in out]
 
@@ -2714,8 +2715,9 @@ def hist_rejections(rnd, quick):
     h.add_class(a, Spec('A_LooseSub', 'A_Loose', assoc=True), 'create')
     h.set_matrix(['A_Bin', 'A_Loose', 'A_Mixed', 'A_LooseSub'], ['N_Base', 'N_Other', 'N_Sub'], ALL_ROLES[:6],
                  focus=('A_Loose', 'A_Bin', 'A_LooseSub', 'N_Base', 'N_Sub'), targets=('N_Base', 'N_Sub', 'A_Loose'))
-    if not quick:       # some 200 rounds: the lighter matrix of the random histories, on all sources
+    if not quick:       # some 200 rounds: a lighter matrix, 9 node sources (those touched first) + 2 association sources
         h.matrix[1] = tuple(x + y[1:3 * len(x)] for x, y in zip(h.matrix[0], h.matrix[1]))
+        h.max_sources = 9
     ax, ay, as_, ao = (h.add_node(a, 'N_Base', 'x'), h.add_node(a, 'N_Base', 'y', 'mof'), h.add_node(a, 'N_Sub', 's'),
                        h.add_node(a, 'N_Other', 'o'))
     bx, by = h.add_node(b, 'N_Base', 'x'), h.add_node(b, 'N_Base', 'y', 'add')
@@ -2733,11 +2735,11 @@ def hist_rejections(rnd, quick):
     for sweep in range(1 if quick else 2):
         todo = rejections(h, class_ns=a, limit=1 if quick else None)
         rest = [k for k, _ in todo if not k.startswith(ALWAYS)]
-        light = set(rnd.sample(rest, len(rest) * 4 // 5)) if quick else set()
+        light = set(rnd.sample(rest, len(rest) * 4 // 5)) if quick else set(rnd.sample(rest, len(rest) // 2)) if sweep else set()
         for kind, thunk in todo:
             thunk()
             seen.add(kind)
-            if kind in light:       # quick tier: only the stores are compared after four fifths of the ordinary kinds
+            if kind in light:       # only the stores are compared (quick: 4/5 of the ordinary kinds; 2nd sweep: half)
                 h.check_stores()
             else:
                 h.round('after refused ' + kind)
@@ -2745,7 +2747,10 @@ def hist_rejections(rnd, quick):
         for w, p, k in (rnd.sample(batches, 4) if quick else batches):
             if failed_batch(h, w, p, k):
                 h.round('after failed batch %s/%s at %d' % (w, k, p))
-        if not quick:       # second sweep on another state (other instances hold the keys, a namespace less)
+        if not quick:       # second sweep on another state (what the batches left is removed, other instances hold the keys)
+            for n in [n for n in h.m[a].nodes.values() if n[2].startswith('bn')]:
+                h.delete_node(n)
+            h.round('batch leftovers deleted')
             h.delete_assoc('L1')
             h.add_assoc(a, 'A_LooseSub', [('Src', ay), ('Dst', ax)], aid='L1')
             h.modify_assoc('X1', 'Dst', bx)
